@@ -18,7 +18,7 @@ QUERIES = ['T.sql', 'a.sql', 'E.sql', 'i.sql', 'I.sql', 'R.sql', 'R.dbml', 'R.ta
            'db.sql', 'db.dbml', 'R2.sql', 'R2.dbml']
 
 
-PLAIN = {'ipk': False, 'iunique': False, 'apk': False, 'rtype': '>', 'r2inline': False, 'aenum': False}
+PLAIN = {'ipk': False, 'iunique': False, 'apk': False, 'rtype': '>', 'r2inline': False, 'aenum': False, 'tabstract': False}
 
 
 class World:
@@ -27,7 +27,7 @@ class World:
         from pydbml.database import Database
         from pydbml.classes import Table, Column, Index, Reference, Enum, EnumItem
         self.D = Database()
-        self.T = Table('t')
+        self.T = Table('t', abstract=fl['tabstract'])
         self.E = Enum('e', [EnumItem('i')])
         self.a, self.b = Column('a', self.E if fl['aenum'] else 'int', pk=fl['apk']), Column('b', 'int')
         self.T.add_column(self.a)
@@ -142,7 +142,7 @@ def main(argv: List[str]) -> int:
         raise core.Machinery('MC_Invalid: %d histories for %d states' % (len(hists), res.distinct))
     rep.exhaustive = True
     flavours = [p[1] for p in res.prints if p and p[0] == 'F'][0]
-    if len(flavours) != 96 or PLAIN not in flavours:
+    if len(flavours) != 192 or PLAIN not in flavours:
         raise core.Machinery('MC_Invalid: flavours %r' % (flavours,))
     others = [f for f in flavours if f != PLAIN]
     items = [{'tid': i + 1, 'hist': h, 'fl': PLAIN} for i, h in enumerate(hists)]
